@@ -37,6 +37,12 @@ func decKey(k []byte) ([]byte, bool) {
 	return nil, false
 }
 
+// fpLastEdge: VerifyRangeProof with a last edge key beyond the last element (allowed by its
+// documentation, used by no caller in the repository).
+var errKnownPanic = fmt.Errorf("known panic")
+
+const fpLastEdge = "C18/range-last-edge-beyond-last-element"
+
 // propRange: VerifyRangeProof accepts every true window of the sorted content (with existent
 // or non-existent edge keys) and rejects the window once one element is altered.
 func propRange(t *rapid.T) {
@@ -89,8 +95,14 @@ func propRange(t *rapid.T) {
 			}
 		}
 	}
+	// Known-finding protocol: with a last edge key that lies beyond the last element,
+	// VerifyRangeProof evaluates hasRightElement on the stale pre-rebuild node tree (panic on
+	// an unresolved hash node / "more" reported for a range that ends the trie). While that is
+	// listed as known the class is excluded by construction so that the search continues.
 	if rapid.Bool().Draw(t, "lastNonExistent") {
-		if u, ok := incKey(last); ok && !inContent(u) && (j == n-1 || bytes.Compare(u, ents[j+1].k) < 0) {
+		if stats.IsKnown(fpLastEdge) {
+			stats.Excluded(fpLastEdge)
+		} else if u, ok := incKey(last); ok && !inContent(u) && (j == n-1 || bytes.Compare(u, ents[j+1].k) < 0) {
 			last, lastKind = u, "nonexistent"
 			if rapid.Bool().Draw(t, "lastFar") && j == n-1 {
 				f := bytes.Repeat([]byte{0xff}, len(u))
@@ -116,13 +128,27 @@ func propRange(t *rapid.T) {
 	}
 	desc = fmt.Sprintf("entries %d..%d of %d, first=%x(%s) last=%x(%s)", i, j, n, first, firstKind, last, lastKind)
 	wantMore := j < n-1
-	verdict := func(k, v [][]byte) (bool, error) {
+	verdict := func(k, v [][]byte) (more bool, err error) {
+		defer func() {
+			if r := recover(); r != nil {
+				if lastKind == "nonexistent" {
+					fail(fpLastEdge, fmt.Sprintf("VerifyRangeProof panicked: %v", r))
+					err = errKnownPanic // only reached while the finding is listed as known
+					return
+				}
+				fail("C18/range-panic/"+firstKind+"-"+lastKind, fmt.Sprintf("VerifyRangeProof panicked: %v", r))
+			}
+		}()
 		return trie.VerifyRangeProof(b.root, first, last, k, v, proof)
 	}
 	single := i == j && bytes.Equal(first, last)
 	more, err := verdict(keys, vals)
-	if err != nil {
+	if err == errKnownPanic {
+		// counted as a known hit, nothing more to compare
+	} else if err != nil {
 		fail("C18/range-rejects-true-window/"+firstKind+"-"+lastKind, fmt.Sprintf("true window rejected: %v", err))
+	} else if more != wantMore && lastKind == "nonexistent" {
+		fail(fpLastEdge, fmt.Sprintf("true window accepted with more=%v, but %d entries lie to the right of the last element", more, n-1-j))
 	} else if more != wantMore {
 		fail("C18/range-more-flag", fmt.Sprintf("true window accepted with more=%v, but %d entries lie to the right", more, n-1-j))
 	}
